@@ -105,7 +105,7 @@ func TestC05(t *testing.T) {
 		Filters: []string{"f0", "f1"}, Fmts: []string{"m0"}, Sinks: []string{"k0"},
 		Policies: []string{"", "", "AllowOverwrite", "DenyOverwrite", "Bogus"}, Malformed: 45, DupIDs: 15,
 	}
-	nh := run.N(3000, 150000)
+	nh := run.N(10000, 300000)
 	for i := 0; i < nh && !run.Stop(); i++ {
 		cr := r.Fork()
 		n := cr.Range(1, 6)
